@@ -363,3 +363,25 @@ ESCSEM = [
                                                      "        def replace(c: re.Match[str]) -> str:\n            escaped = c.group(1)\n            if escaped in cls.__UNESCAPE_MAP:\n                return cls.__UNESCAPE_MAP[escaped]\n            return escaped\n\n        return re.sub(cls.__UNESCAPE_PATTERN, replace, s)")]),
 ]
 VARIANTS += ESCSEM
+
+VARIANTS += [
+    fire('claim-found-outer-no-discard', ['C14'], [(IC, "                if id(token) in self._comments_to_claim:\n                    self._comments_to_claim.discard(id(token))\n                    yield token", "                if id(token) in self._comments_to_claim:\n                    yield token")], 'CLAIM-FOUND'),
+    fire('claim-found-inner-no-discard', ['C14'], [(IC, "                self._comments_to_claim.discard(id(prev_token))\n                yield prev_token", "                yield prev_token")], 'CLAIM-FOUND'),
+]
+
+VARIANTS += [
+    fire('dec-exact-abs', ['C09', 'C13'], [(NE, "    number_token = number.Number.from_value(value.copy_abs())", "    number_token = number.Number.from_value(abs(value))")], 'DEC-EXACT'),
+    fire('dec-exact-neg', ['C09'], [(NE, "    number_token = number.Number.from_value(value.copy_abs())", "    number_token = number.Number.from_value(-value if value < 0 else value)")], 'DEC-EXACT'),
+    fire('dec-exact-create-decimal', ['C12', 'C13'], [(NM, "        return decimal.Decimal(raw_text.replace(',', ''))", "        return decimal.getcontext().create_decimal(raw_text.replace(',', ''))")], 'DEC-EXACT'),
+    silent('dec-exact-twin-local', ['C09', 'C13'], [(NE, "    number_token = number.Number.from_value(value.copy_abs())", "    magnitude = value.copy_abs()\n    number_token = number.Number.from_value(magnitude)")]),
+]
+
+CU = 'autobean_refactor/models/custom.py'
+VARIANTS += [
+    fire('disambig-prev-ends-with-number', ['C15'], [(CU, "        if isinstance(prev, NumberExpr):\n            if isinstance(value, Amount):", "        if isinstance(prev, NumberExpr) and isinstance(prev.last_token, Number):\n            if isinstance(value, Amount):"),
+                                                     (CU, "from .number_unary_expr import NumberUnaryExpr", "from .number_unary_expr import NumberUnaryExpr\nfrom .number import Number")], 'DISAMBIG'),
+    fire('disambig-amount-not-inspected', ['C15'], [(CU, "            if isinstance(value, Amount):\n                number = value.raw_number\n            elif isinstance(value, NumberExpr):", "            if isinstance(value, NumberExpr):")], 'DISAMBIG'),
+    fire('disambig-prev-updated-only-for-numbers', ['C15'], [(CU, "        yield value\n        prev = value", "        yield value\n        if isinstance(value, NumberExpr):\n            prev = value")], 'DISAMBIG'),
+    silent('disambig-twin-flag', ['C15'], [(CU, "    prev = None\n    for value in values:\n        if isinstance(prev, NumberExpr):", "    prev_is_number = False\n    for value in values:\n        if prev_is_number:"),
+                                           (CU, "        yield value\n        prev = value", "        yield value\n        prev_is_number = isinstance(value, NumberExpr)")]),
+]
